@@ -567,7 +567,7 @@ impl<'a> Wf<'a> {
             }
             if need_explicit_first_op && !explicit { return self.fail("unknown-container-first-key-without-operator"); }
             need_explicit_first_op = false;
-            if nested && n == 0 && matches!(op, Op::Ne | Op::Exists) { return self.fail("first-field-operator(F9)"); }
+            let _ = nested;
             if op != Op::Eq { self.push_tok(format!("Op:{}", op.name())); }
             self.value(true, After::Key)?;
             n += 1;
@@ -879,8 +879,8 @@ fn end_call(rng: &mut Rng, fl: &Flavour) -> Call {
 
 fn field_calls(rng: &mut Rng, f: &Field, nested_first: bool, force_explicit: bool, fl: &Flavour, out: &mut Vec<Call>) {
     out.push(scalar_call(rng, &f.key, fl));
-    let mut op = f.op;
-    if nested_first && matches!(op, Op::Ne | Op::Exists) { op = Op::Ge; } // F9 (known finding) is kept out of the well-formed stream
+    let op = f.op;
+    let _ = nested_first;
     if op != Op::Eq { out.push(Call::Operator(op)); }
     else if force_explicit || rng.below(100) < fl.explicit_eq_pct {
         out.push(if rng.below(100) < fl.bt_pct { Call::Binary(BinT::Equal) } else { Call::Operator(Op::Eq) });
@@ -946,7 +946,7 @@ fn random_call(rng: &mut Rng) -> Call {
         16 => Call::Header(rng.pick(&[&b"rgb"[..], b"hsv", b"LIST", b""]).to_vec()),
         17 | 18 => Call::Operator(*rng.pick(&Op::ALL)),
         19 => Call::Bool(rng.chance(1, 2)),
-        20 => Call::I64(rng.next() as i64 >> rng.below(64)),
+        20 => Call::I64(if rng.chance(1, 8) { *rng.pick(&[i64::MIN, i64::MAX, i64::MIN + 1, 0, -1]) } else { rng.next() as i64 >> rng.below(64) }),
         21 => Call::U64(rng.next() >> rng.below(64)),
         22 => Call::Rgb(rng.below(256) as u32, rng.below(256) as u32, rng.next() as u32, if rng.chance(1, 3) { Some(rng.below(256) as u32) } else { None }),
         23 => Call::Date(*rng.pick(&['s', 'w', 'i']), (rng.next() as i16) >> rng.below(16), 1 + rng.below(12) as u8, 1 + rng.below(31) as u8, rng.below(25) as u8),
@@ -964,7 +964,7 @@ fn random_call(rng: &mut Rng) -> Call {
 pub fn gen_c15(g: &mut Gen) {
     // 0. fixed cases: the writer's own doc examples and the boundary integers
     for ints in [
-        vec![Call::Unquoted(b"a".to_vec()), Call::I64(i64::MAX), Call::Unquoted(b"b".to_vec()), Call::I64(i64::MIN + 1), Call::Unquoted(b"c".to_vec()), Call::U64(u64::MAX)],
+        vec![Call::Unquoted(b"a".to_vec()), Call::I64(i64::MAX), Call::Unquoted(b"b".to_vec()), Call::I64(i64::MIN + 1), Call::Unquoted(b"m".to_vec()), Call::I64(i64::MIN), Call::Unquoted(b"m2".to_vec()), Call::Binary(BinT::I64(i64::MIN)), Call::Unquoted(b"c".to_vec()), Call::U64(u64::MAX)],
         vec![Call::Unquoted(b"a".to_vec()), Call::I32(i32::MIN), Call::Unquoted(b"b".to_vec()), Call::I32(i32::MAX), Call::Unquoted(b"c".to_vec()), Call::U32(u32::MAX), Call::U64(0), Call::I64(0)],
         vec![Call::Binary(BinT::Token(0)), Call::Binary(BinT::Token(0xffff)), Call::Binary(BinT::Token(0x2d82)), Call::Binary(BinT::Token(0x10))],
         vec![Call::Unquoted(b"d".to_vec()), Call::Date('i', -5, 1, 2, 0), Call::Unquoted(b"e".to_vec()), Call::Date('i', -1234, 11, 30, 24), Call::Unquoted(b"f".to_vec()), Call::Date('w', i16::MIN, 1, 1, 1), Call::Date('s', i16::MAX, 12, 31, 24), Call::Date('i', 12345, 9, 9, 1)],
